@@ -81,6 +81,13 @@ def _fail(msg):
     raise RuntimeError("C18 gen (fail closed): " + msg)
 
 
+def _tree(rs):
+    if not rs:
+        return "RLeaf"
+    mid = len(rs) // 2
+    return "(RNode %s %s %s %s)" % (_tree(rs[:mid]), L.N(rs[mid][0]), L.N(rs[mid][1]), _tree(rs[mid + 1:]))
+
+
 def gen(repo):
     disp = importlib.import_module("orso.display")
     dfm = importlib.import_module("orso.dataframe")
@@ -137,6 +144,9 @@ def gen(repo):
         "Definition c18_colors : list (list N * list N) := %s." % L.lst(L.pair(L.text(k), L.text(v)) for k, v in colors.items()),
         "(* code point ranges whose east_asian_width is one of %s (unicodedata %s) *)" % ("/".join(classes), unicodedata.unidata_version),
         "Definition c18_wide_ranges : list (N * N) := %s." % L.lst(L.pair(L.N(a), L.N(b)) for a, b in ranges),
+        "(* the same ranges as a balanced search tree *)",
+        "Inductive c18_rtree := RLeaf | RNode (l : c18_rtree) (lo hi : N) (r : c18_rtree).",
+        "Definition c18_wide_tree : c18_rtree := %s." % _tree(ranges),
         "Definition c18_missing_type : list N := %s." % L.text(missing),
         "Definition c18_str_limit : nat := %s." % L.nat(int(m.group(1))),
         "Definition c18_ascii_mcw : nat := %s." % L.nat(mcw),
@@ -624,9 +634,11 @@ def to_coq(case, obs):
                 labels = "(Some (%s, %s))" % (L.lst(L.nat(b[1]) for b in rws), L.lst(L.nat(x) for x in before))
             if ascii_only(case):
                 widths = "(Some %s)" % L.lst(L.nat(len(ln)) for ln in p["lines"])
+    # str() runs the same ascii_table under other settings: the model is evaluated on it for every second case
+    with_str = (len(case["rows"]) + cfg["limit"]) % 2 == 0 or "exc" in obs["str"]
     term = "(mkcase %s %s %s %s %s %s %s %s %s %s)" % (
         frame, config, L.nat(case["md"]["limit"]), L.nat(case["md"]["mcw"]), L.nat(case["cols"]),
-        _obs_term(obs["display"]), _obs_term(obs["markdown"]), _obs_term(obs["str"]), labels, widths)
+        _obs_term(obs["display"]), _obs_term(obs["markdown"]), L.opt(_obs_term(obs["str"]) if with_str else None), labels, widths)
     return ("render", term)
 
 
